@@ -16,6 +16,10 @@ pub struct LGen<'c> {
     next: u32,
     allow_str: bool,
     pub allow_lists: bool,
+    /// `fn main() -> i32 { ..; 0 }` instead of a unit main (the IR evaluator cannot return unit)
+    pub main_returns_i32: bool,
+    /// observe leaves through `ov_<ty>(x) -> i32` instead of the unit functions `out_<ty>(x)`
+    pub value_returning_outs: bool,
 }
 
 const SCALARS: [Ty; 13] = [
@@ -40,7 +44,7 @@ fn short(t: &Ty) -> String {
 
 impl<'c> LGen<'c> {
     pub fn new(stream: &'c [u8], allow_str: bool) -> Self {
-        LGen { c: Choices::new(stream), prog: Program::default(), next: 0, allow_str, allow_lists: true }
+        LGen { c: Choices::new(stream), prog: Program::default(), next: 0, allow_str, allow_lists: true, main_returns_i32: false, value_returning_outs: false }
     }
 
     fn fresh(&mut self, p: &str) -> String {
@@ -72,7 +76,7 @@ impl<'c> LGen<'c> {
                 }
                 Ty::Anon(fs)
             }
-            17 if self.allow_str => Ty::Str,
+            17 | 18 | 19 if self.allow_str => Ty::Str,
             _ => self.scalar(),
         }
     }
@@ -237,7 +241,8 @@ impl<'c> LGen<'c> {
                     let mut binds = Vec::new();
                     let mut body = Vec::new();
                     // which variant was taken is observable as well
-                    body.push(Stmt::Expr(Expr::Host("out_u8".into(), vec![Expr::Lit(Lit { v: V::Int(IntTy::U8, k as i128), text: format!("{k}u8") })])));
+                    let f = if self.value_returning_outs { "ov_u8" } else { "out_u8" };
+                    body.push(Stmt::Expr(Expr::Host(f.into(), vec![Expr::Lit(Lit { v: V::Int(IntTy::U8, k as i128), text: format!("{k}u8") })])));
                     for ft in ts.iter() {
                         let b = self.fresh("b");
                         binds.push(b.clone());
@@ -248,7 +253,10 @@ impl<'c> LGen<'c> {
                 out.push(Stmt::Expr(Expr::Match(Box::new(e), arms)));
             }
             Ty::Unit => {}
-            _ => out.push(Stmt::Expr(Expr::Host(format!("out_{}", short(t)), vec![e]))),
+            _ => {
+                let pre = if self.value_returning_outs { "ov" } else { "out" };
+                out.push(Stmt::Expr(Expr::Host(format!("{pre}_{}", short(t)), vec![e])))
+            }
         }
     }
 
@@ -318,9 +326,10 @@ impl<'c> LGen<'c> {
                 2 => {
                     for (a, b) in [("v", "v2"), ("v", "w"), ("v", "v")] {
                         let eq = Expr::Bin(BinOp::Eq, Box::new(Expr::Var(a.into())), Box::new(Expr::Var(b.into())));
-                        stmts.push(Stmt::Expr(Expr::Host("out_bool".into(), vec![eq])));
+                        let ob = if self.value_returning_outs { "ov_bool" } else { "out_bool" };
+                        stmts.push(Stmt::Expr(Expr::Host(ob.into(), vec![eq])));
                         let ne = Expr::Bin(BinOp::Ne, Box::new(Expr::Var(a.into())), Box::new(Expr::Var(b.into())));
-                        stmts.push(Stmt::Expr(Expr::Host("out_bool".into(), vec![ne])));
+                        stmts.push(Stmt::Expr(Expr::Host(ob.into(), vec![ne])));
                     }
                 }
                 3 => {
@@ -381,7 +390,12 @@ impl<'c> LGen<'c> {
                 }
             }
         }
-        let main = Func { kind: FnKind::Fn, name: "main".into(), params: vec![], ret: Ty::Unit, body: Block { stmts, tail: None } };
+        let main = if self.main_returns_i32 {
+            let zero = Expr::Lit(Lit { v: V::Int(IntTy::I32, 0), text: "0".into() });
+            Func { kind: FnKind::Fn, name: "main".into(), params: vec![], ret: Ty::Int(IntTy::I32), body: Block { stmts, tail: Some(Box::new(zero)) } }
+        } else {
+            Func { kind: FnKind::Fn, name: "main".into(), params: vec![], ret: Ty::Unit, body: Block { stmts, tail: None } }
+        };
         self.prog.funcs.push(main);
         let _ = id_fn_needed;
         self.prog.funcs.push(Func {
